@@ -863,10 +863,13 @@ class Engine:
                     sub.assume(g)
                 for prev in e.values[:len(ts)]:
                     self.narrow(prev, sub, is_and)
+            base_len = len(sub.pc)
             t = self.truth(self.ev(v, sub))
             if sub is not st:
-                for o in self.obls[n0:]:
-                    pass  # already evaluated under sub.pc which contains the guards
+                # facts learned while evaluating this operand (callee postconditions) hold whenever it is evaluated at all
+                g = z3.And(guards) if len(guards) > 1 else guards[0]
+                for fact in sub.pc[base_len:]:
+                    st.assume(z3.Implies(g, fact))
             ts.append(t)
             guards.append(t if is_and else z3.Not(t))
         return vbool(z3.And(ts) if is_and else z3.Or(ts))
@@ -1001,6 +1004,8 @@ class Engine:
             return z3.If(a.c, z3.BoolVal(a.a.s == b.s), z3.BoolVal(a.b.s == b.s))
         if a.ty == TBool and b.ty == TBool:
             return a.t == b.t
+        if a.ty == TInt and b.ty == TInt:
+            return a.t == b.t
         if a.ty == TBool and b.ty == TInt:
             return z3.If(a.t, 1, 0) == b.t
         if a.ty == TInt and b.ty == TBool:
@@ -1048,6 +1053,12 @@ class Engine:
             return coll.t[self.coerce(x, ty.elem, st).t]
         if isinstance(ty, TDict):
             return ty.dom(coll.t)[x.t]
+        if isinstance(ty, TList) and isinstance(x.ty, TOpt) and x.ty.elem == ty.elem:
+            # `None in [ints]` is False; otherwise membership of the wrapped value
+            inner = self.contains(coll, Val(x.ty.elem, x.ty.val(x.t)), st, node)
+            return z3.And(z3.Not(x.ty.is_none(x.t)), inner)
+        if isinstance(ty, TEmpty) and ty.kind in ("list", "set", "dict"):
+            return z3.BoolVal(False)
         if isinstance(ty, TList):
             i = z3.Int(fresh_name("i"))
             xe = self.coerce(x, ty.elem, st)
